@@ -201,6 +201,20 @@ struct WrapLBFGS: public WrapT<LSProbe<LBFGS<RealVector> > >{
 	}
 };
 
+// trust-region Newton: flat state  n, point, value, gradient, delta, minImprovementRatio, hessian (row-major)
+struct TRNProbe2: public TRNProbe{
+	std::string state() const{
+		std::ostringstream os;
+		os << " st=" << m_best.point.size() << hexVec(m_best.point) << "," << hexd(m_best.value) << hexVec(m_derivatives.gradient)
+		   << "," << hexd(m_delta) << "," << hexd(m_minImprovementRatio);
+		for(std::size_t i = 0; i != m_derivatives.hessian.size1(); ++i){ RealVector r = row(m_derivatives.hessian, i); os << hexVec(r); }
+		return os.str();
+	}
+};
+struct WrapTRN: public WrapT<TRNProbe2>{
+	explicit WrapTRN(bool poison): WrapT<TRNProbe2>(poison){}
+	std::string extra(bool){ return p->state(); }
+};
 static LineSearchType lsType(double v){
 	return v == 0 ? LineSearchType::Dlinmin : (v == 1 ? LineSearchType::WolfeCubic : LineSearchType::Backtracking);
 }
@@ -236,7 +250,7 @@ static Wrap* make(Config const& c, bool poison, bool configure){
 		if(configure){ configLS(w->p->lineSearch(), c, 2); w->p->setHistCount((unsigned)c.p[1]); }
 		return w;
 	}
-	if(c.kind == "trn") return new WrapT<TRNProbe>(poison);
+	if(c.kind == "trn") return new WrapTRN(poison);
 	throw std::runtime_error("unknown optimizer " + c.kind);
 }
 static void doInit(Wrap& w, Config const& c, Obj const& f, RealVector const& x0){
@@ -244,7 +258,7 @@ static void doInit(Wrap& w, Config const& c, Obj const& f, RealVector const& x0)
 	else if(c.kind == "trn"){
 		// configuration axes of TrustRegionNewton: initial trust-region radius (argument of init) and
 		// minImprovementRatio() (reset by init, so it is set after it)
-		TRNProbe* t = static_cast<WrapT<TRNProbe>&>(w).p;
+		TRNProbe* t = static_cast<WrapTRN&>(w).p;
 		t->TrustRegionNewton::init(f, x0, c.p.size() >= 1 ? c.p[0] : 0.1);
 		if(c.p.size() >= 2) t->minImprovementRatio() = c.p[1];
 	}
